@@ -19,6 +19,8 @@ FIV == IF ForInVariants = "few"
              <<"ustr", 2, TRUE>>,    \* a string with a multi-byte character: characters and byte offsets
              <<"fstr", 2, TRUE>>,    \* a string that starts with U+FFFD
              <<"nobj", 4, FALSE>>}   \* an object whose keys mix numeric-looking and other strings
+       ELSE IF ForInVariants = "lean"
+       THEN {<<"arr", 2, FALSE>>, <<"obj", 2, TRUE>>, <<"str", 2, TRUE>>, <<"arr", 0, TRUE>>}
        ELSE {<<kd, m, tw>> : kd \in {"arr", "obj", "str", "ustr"}, m \in 0..2, tw \in BOOLEAN} \cup {<<"nobj", 4, TRUE>>, <<"fstr", 2, TRUE>>, <<"fstr", 2, FALSE>>}
 
 \* statements with exactly n nodes
